@@ -6,16 +6,17 @@ from engb import H
 def run(ck):
     B = engb.EngineB(ck)
     quick = ck.tier == 'quick'
-    ck.bounds += ['tables of <= 4 (quick) / <= 6 (thorough) transitions: all lengths, hence both parities and every mid-point pattern of the binary search to depth 3; 3 local time types; trailing rule none or Fixed(any); leap variant: <= 3 (4) transitions with <= 2 (3) leap records',
+    ck.bounds += ['tables of <= 6 (quick) / <= 8, optionally 12 (thorough) transitions: all lengths, hence both parities and every mid-point pattern of the binary search to depth 3; 3 local time types; trailing rule none or Fixed(any); leap variant: <= 4 (6) transitions with <= 3 leap records',
                   'arbitrary i64 transition times and instants, arbitrary i32 offsets; zones filtered by the real TimeZoneRef::new; longer tables are outside the claim']
     ck.trusted += ['Kani 0.68 / CBMC 6.11 (dev profile)']
     ck.stubs += ['S_unreach: RuleDay::unix_time / AlternateTime::find_local_time_type := assert!(false) (no Alternate rule in these harnesses; DST rules are C04)',
                  'S_pack in c03_plumb: UtcDateTime::from_timespec := range gate + injective packing of t (its real meaning is C01)']
-    hs = [H('c03_lookup_n4', cap=1200, playback=True, meaning='lookup == linear-scan reference (ptr-equal local time type), type 0 before the first transition, rule / NoAvailableLocalTimeType at or after the last; n<=4, no leap seconds'),
-          H('c03_lookup_leap_n3', cap=1200, playback=True, meaning='same with <=2 leap records: "at or before" is judged at the UTC instant each transition count denotes (declarative C12 definition); n<=3'),
+    hs = [H('c03_lookup_n6', cap=1200, playback=True, meaning='lookup == linear-scan reference (ptr-equal local time type), type 0 before the first transition, rule / NoAvailableLocalTimeType at or after the last; n<=6, no leap seconds'),
+          H('c03_lookup_leap_n4', cap=1500, playback=True, meaning='same with <=3 leap records: "at or before" is judged at the UTC instant each transition count denotes (declarative C12 definition); n<=4'),
           H('c03_plumb', cap=1200, meaning='DateTime::from_timespec = lookup composed with from_timespec_and_local: fields are those of t+offset, unix_time=t, ns and type copied, OutOfRange iff t+offset leaves the range')]
     if not quick:
-        hs += [H('c03_lookup_n6', cap=3600, playback=True, meaning='n<=6, no leap seconds'), H('c03_lookup_leap_n4', cap=3600, required=False, playback=True, meaning='n<=4 with <=3 leap records')]
+        hs += [H('c03_lookup_n8', cap=3600, playback=True, meaning='n<=8'), H('c03_lookup_n12', cap=7200, playback=True, required=False, meaning='n<=12 (binary search depth 4)'),
+               H('c03_lookup_leap_n6', cap=7200, playback=True, required=False, meaning='n<=6 with <=3 leap records')]
     B.run(hs)
     import kprop
     for h in hs:
